@@ -284,5 +284,14 @@ func VerifNewWeekRange(sh, sm, ss, eh, em, es int, startDay, endDay time.Weekday
 func (t *VerifTimeRange) IsInRange(x time.Time) bool        { return t.r.IsInRange(x) }
 func (t *VerifTimeRange) IsInSameRange(a, b time.Time) bool { return t.r.IsInSameRange(a, b) }
 
+// VerifWireFields returns the fields of a parsed message in the order kept for validation.
+func VerifWireFields(m *Message) (tags []int, values [][]byte) {
+	for _, f := range m.fields {
+		tags = append(tags, int(f.tag))
+		values = append(values, f.value)
+	}
+	return
+}
+
 // VerifBodyBytes exposes the raw body slice remembered by the parser.
 func VerifBodyBytes(m *Message) []byte { return m.bodyBytes }
